@@ -1,0 +1,15 @@
+//go:build verif
+// +build verif
+
+package redis
+
+import "time"
+
+// VerifSetSlotsRefresh sets the two slot-refresh timers (package variables) so that a
+// verification harness does not wait 5 s between refresh rounds. It returns the previous
+// values. Call it before any processor is started.
+func VerifSetSlotsRefresh(freq, minRate time.Duration) (time.Duration, time.Duration) {
+	of, om := slotsRefFreq, slotsRefMinRate
+	slotsRefFreq, slotsRefMinRate = freq, minRate
+	return of, om
+}
